@@ -39,9 +39,10 @@ NORM = [
     (r'asyncio\.wait_for\((.*)\.wait\(\), timeout=(.*)\)$', r'\1.wait(timeout=\2)'),
     (r'self\.create_event\(\)', 'self.service_task_event'),
     (r'float\(self\.ping_timeout\)', 'self.ping_timeout'),
+    (r"query\.get\('sid', \[None\]\)\[0\]", "query['sid'][0] if 'sid' in query else None"),
     (r'^return self\._make_response\((self\._bad_request\(.*\)), environ\)$', r'def r := \1'),
 ]
-DROP = [r'^return self\._make_response\(r, environ\)$', r"^return \[r\['response'\]\]$",
+DROP = [r"^call query\.get\('sid', \[None\]\)$", r'^return self\._make_response\(r, environ\)$', r"^return \[r\['response'\]\]$",
         r'^call start_response\(', r'^call self\._make_response\(', r'^call self\.queue\.get\(\)$',
         r'^call asyncio\.iscoroutinefunction\(', r'^handler ', r'^call .*\.logger\.',
         r'^call self\._log_error_once\(', r'^call self\.logger\.', r'^exc ',
@@ -53,11 +54,10 @@ def tokens(A, fi, ctx):
     def opaque(st, f):
         return isinstance(st, (ast.If, ast.For)) and ('self.http_compression' in ast.unparse(st)
                                                       or 'settimeout' in ast.unparse(st))
-    keep = {'environ', 'query', 'sid', 'transport', 'method', 'upgrade_header', 'origin',
-            'allowed_origins', 'socket', 'packets', 'r', 'translate_request', 'p', 'pkt',
-            'decoded_pkt', 's', 'ret', 'wait_task', 'writer_task', 'length', 'body',
-            'connections', 'sleep_interval', 'headers', 'encodings', 'make_response',
-            'cors_headers', 'response', 'loop', 'data', 'exc', 'queue_empty'}
+    keep = set()
+    if fi.name == 'handle_request':
+        keep = {'environ', 'query', 'sid', 'transport', 'method', 'upgrade_header', 'origin',
+                'allowed_origins', 'socket', 'r', 'translate_request'}
     en = A.enum(opaque=opaque, max_paths=150000, refine_raises=False, keep=keep)
     out = set()
     for p in A.paths(en, fi, ctx):
